@@ -648,3 +648,13 @@ Proof.
     exists tl2, p0, s. split; [reflexivity | exact H].
   - simpl in H |- *. destruct (astep enabler vetoes st x) as [st1|]; [|discriminate H]. apply IH. exact H.
 Qed.
+
+(* every invocation announces the apply mode it was entered with *)
+Lemma eval_first G C f d r c o c' evs : eval G C f d r c = Res o c' evs ->
+  evs = [] \/ exists tl, evs = EEnter (dCtl d) r (dA d) (dM d) (cpos c) :: tl.
+Proof.
+  destruct f as [|f]; simpl; [discriminate|].
+  destruct (nth_error G r) as [nd|]; [|intros H; inversion H; auto].
+  match goal with |- traced _ _ _ _ _ ?x = _ -> _ => destruct x as [o0 c0 e0| |] end; simpl; intros H; inversion H; subst.
+  right. eexists; reflexivity.
+Qed.
